@@ -236,4 +236,1143 @@ theorem afc_parseHeaders (b : Buf) (offs : Nat) (hl : HdrLst) (hb : Option PHdrV
     · rw [if_neg hlt]
       intro hh; cases hh
 
+/-! #### the message -/
+
+/-- **all accepted header lines of a message, as a function of the input**: the lines of the ParseHeaders call that
+    ParseSIPMsg makes at the end of the first line -/
+def afcMsgLines (b : Buf) (o : Nat) (m : PSIPMsg) : List Hdr :=
+  afcTrace b (b.size + 1) (parseFLine b o m.fl).1 m.hl (some m.pv)
+
+/-- the statement about one message object, relative to the list `gs` of all accepted header lines -/
+structure AfcMsg (gs : List Hdr) (m : PSIPMsg) : Prop where
+  stored : AfcStored gs m.hl
+  contacts : AfcAssoc HdrContact gs m.pv.contacts.vals m.pv.contacts.n m.pv.contacts.hNo
+  pais : AfcAssoc HdrPAI gs m.pv.pais.vals m.pv.pais.n m.pv.pais.hNo
+
+/-- **message, one call from the initial state** (same hypotheses as `hx_parseSIPMsg`; no header counted yet) -/
+theorem afc_parseSIPMsg (b : Buf) (o : Nat) (m : PSIPMsg) (flags : Nat) (hfit : b.size ≤ 65535)
+    (hok : msgOK2 b o m) (H : MsgSafe b o m) (hst : m.state = .init) (hcur : m.hl.cur = {}) (h0 : m.hl.n = 0)
+    (G : AfcInv [] (some m.pv)) {o' : Nat} {m' : PSIPMsg} (hr : parseSIPMsg b o m flags = (o', .ok, m')) :
+    AfcMsg (afcMsgLines b o m) m' := by
+  obtain ⟨ho, _, hrest⟩ := hok
+  obtain ⟨hls, hvs, hpe⟩ := hrest (by rw [hst]; decide)
+  have h1 : parseSIPMsg b o m flags = msgFLine b o { m with offs := o, state := .fline } flags := by
+    unfold parseSIPMsg; rw [hst]
+  rw [h1] at hr
+  unfold msgFLine at hr
+  simp only at hr
+  have hF := parseFLine_safe b o m.fl hfit (H.flS (Or.inl hst))
+  have hge := parseFLine_ge b o m.fl
+  unfold afcMsgLines
+  rcases hp : parseFLine b o m.fl with ⟨o1, e1, fl1⟩
+  rw [hp] at hr hF hge
+  simp only at hF hge
+  cases e1 <;> simp only at hr
+  case ok =>
+    rw [msgHeaders_eq] at hr
+    simp only at hr
+    have hHls : HlsSafe b o1 m.hl (some m.pv) := (H.hls (Or.inl hst)).mono hge hF.ho
+    have hNn := afc_parseHeaders b o1 m.hl (some m.pv) hfit hls (hvOK_mono hvs hge hF.ho) hpe hF.ho hHls hcur
+      (by intro hh; cases hh) [] (b.size + 1) (by omega) ⟨h0.symm, fun j hj => by omega⟩ G
+    have hsome := parseHeaders_isSome b o1 m.hl m.pv
+    rcases hp2 : parseHeaders b o1 m.hl (some m.pv) with ⟨o2, e2, hl2, hb2⟩
+    rw [hp2] at hr hNn hsome
+    cases hb2 with
+    | none => cases hsome
+    | some pv2 =>
+      unfold afterHeaders at hr
+      cases e2 <;> simp only [Option.getD_some] at hr
+      case ok =>
+        obtain ⟨k1, k2, k3⟩ := flo_msgBody_keeps b o2 { m with offs := o, fl := fl1, hl := hl2, pv := pv2, state := .body } flags
+        rw [hr] at k1 k2 k3
+        obtain ⟨q1, q2⟩ := hNn rfl
+        simp only [List.nil_append] at q1 q2
+        obtain ⟨q3, q4⟩ := q2 pv2 rfl
+        exact ⟨by rw [k2]; exact q1, by rw [k3]; exact q3, by rw [k3]; exact q4⟩
+      all_goals (exfalso; have hq := congrArg (fun r => r.2.1) hr; simp only at hq; exact flo_msgErr_ne_ok _ _ _ _ (by decide) hq)
+  all_goals (exfalso; have hq := congrArg (fun r => r.2.1) hr; simp only at hq; exact flo_msgErr_ne_ok _ _ _ _ (by decide) hq)
+
+theorem AfcAssoc_nil (ty : Nat) (vals : Array PFromBody) : AfcAssoc ty [] vals 0 0 :=
+  ⟨[], rfl, rfl, (fun c hc => by cases hc), rfl, fun i j hij => by cases hij⟩
+
+theorem AfcInv_init (m : PSIPMsg) (len kh kc : Nat) (hdrs : Option Unit) (cts : Option Unit) :
+    let m1 := m.init len (hdrs.map fun _ => Array.replicate kh {}) (cts.map fun _ => Array.replicate kc {})
+    AfcInv [] (some m1.pv) ∧ m1.hl.n = 0 := by
+  have key : ∀ k k', AfcInv [] (some (initObj len k k').pv) ∧ (initObj len k k').hl.n = 0 := by
+    intro k k'
+    refine ⟨fun hv hh => ?_, rfl⟩
+    cases hh
+    exact ⟨AfcAssoc_nil _ _, AfcAssoc_nil _ _⟩
+  cases hdrs <;> cases cts
+  · exact key 10 10
+  · exact key 10 kc
+  · exact key kh 10
+  · exact key kh kc
+
+/-- **[C05] message level, one call on an object produced by Init, line index pinned** (any previous contents, caller
+    arrays of any capacity or none; EVERY input within the 65,535-byte limit): with `gs` = the list of ALL accepted
+    header lines (a function of the input), `AfcMsg gs m'` -/
+theorem afc_values_pinned_init (b : Buf) (o : Nat) (m0 : PSIPMsg) (len kh kc : Nat) (hdrs cts : Option Unit)
+    (flags : Nat) (hfit : b.size ≤ 65535) (ho : o ≤ b.size) {o' : Nat} {m' : PSIPMsg}
+    (hr : parseSIPMsg b o (m0.init len (hdrs.map fun _ => Array.replicate kh {}) (cts.map fun _ => Array.replicate kc {}))
+      flags = (o', .ok, m')) :
+    AfcMsg (afcMsgLines b o (m0.init len (hdrs.map fun _ => Array.replicate kh {}) (cts.map fun _ => Array.replicate kc {})))
+      m' := by
+  obtain ⟨_, q2, q3⟩ := MsgLo_init o m0 len kh kc hdrs cts
+  obtain ⟨g1, g2⟩ := AfcInv_init m0 len kh kc hdrs cts
+  exact afc_parseSIPMsg b o _ flags hfit (msgOK2_init b o ho m0 len kh kc hdrs cts)
+    (MsgSafe_init b o ho m0 len kh kc hdrs cts) q3 q2 g2 g1 hr
+
+/-- **[C05] … under every chunk schedule, from Init**: if the chain of resumed calls over growing prefixes ends with
+    OK, the final object is the object of ONE call on a buffer `b` of the schedule and satisfies the pinned statement
+    relative to the accepted lines of `b` -/
+theorem afc_values_pinned_schedule_init (flags : Nat) (o : Nat) (m0 : PSIPMsg) (len kh kc : Nat)
+    (hdrs cts : Option Unit) (l : List Buf) (hg : Growing l) (hfit : ∀ x ∈ l, x.size ≤ 65535) (hne : l ≠ [])
+    (ho : ∀ b ∈ l, o ≤ b.size) {o' : Nat} {m' : PSIPMsg}
+    (hr : resumeRun (C01.msgP flags) o
+      (m0.init len (hdrs.map fun _ => Array.replicate kh {}) (cts.map fun _ => Array.replicate kc {})) l = (o', .ok, m')) :
+    ∃ b ∈ l, parseSIPMsg b o
+        (m0.init len (hdrs.map fun _ => Array.replicate kh {}) (cts.map fun _ => Array.replicate kc {})) flags = (o', .ok, m') ∧
+      AfcMsg (afcMsgLines b o (m0.init len (hdrs.map fun _ => Array.replicate kh {}) (cts.map fun _ => Array.replicate kc {})))
+        m' := by
+  obtain ⟨b, hb, h⟩ := flo_schedule_init flags o m0 len kh kc hdrs cts l hg hfit hne ho hr
+  exact ⟨b, hb, h, afc_values_pinned_init b o m0 len kh kc hdrs cts flags (hfit b hb) (ho b hb) h⟩
+
+/-! #### what `AfcAssoc` says: the map form -/
+
+theorem afc_hxStart_mono (cnt : List Nat) {a c : Nat} (h : a ≤ c) : hxStart cnt a ≤ hxStart cnt c := by
+  unfold hxStart
+  have : cnt.take a = (cnt.take c).take a := by rw [List.take_take, Nat.min_eq_left h]
+  rw [this]
+  exact hxStart_le (cnt.take c) a
+
+theorem afc_hxStart_succ (cnt : List Nat) (i : Nat) (hi : i < cnt.length) :
+    hxStart cnt (i + 1) = hxStart cnt i + cnt[i] := by
+  unfold hxStart
+  rw [List.take_add_one, List.sum_append, List.getElem?_eq_getElem hi]
+  simp
+
+/-- the positions of the lines of a type are listed in increasing order -/
+theorem afc_idx_mono {ty : Nat} {tyOf : Nat → Nat} {N i i' j j' : Nat} (h : (hxIdx ty tyOf N)[i]? = some j)
+    (h' : (hxIdx ty tyOf N)[i']? = some j') (hii : i < i') : j < j' := by
+  have hp : List.Pairwise (· < ·) (hxIdx ty tyOf N) := by
+    unfold hxIdx
+    exact List.Pairwise.filter _ List.pairwise_lt_range
+  obtain ⟨h1, e1⟩ := List.getElem?_eq_some_iff.1 h
+  obtain ⟨h2, e2⟩ := List.getElem?_eq_some_iff.1 h'
+  have := (List.pairwise_iff_getElem.1 hp) i i' h1 h2 hii
+  rw [e1, e2] at this
+  exact this
+
+/-- **`AfcAssoc`, the map form**: there is a map `f` from the values counted to the positions in `gs` (ALL accepted
+    lines), monotone (values are associated with lines in message order), such that line `f k` has the type of the
+    list and — whether or not that line is stored in the header array — every stored value `k` has at least one byte
+    and lies inside the `val` of line `f k`; every line of the type is the line of some value -/
+theorem AfcAssoc.map {ty : Nat} {gs : List Hdr} {vals : Array PFromBody} {n hNo : Nat} (H : AfcAssoc ty gs vals n hNo) :
+    ∃ f : Nat → Nat, (∀ k k', k ≤ k' → k' < n → f k ≤ f k') ∧
+      (∀ k, k < n → f k < gs.length ∧ gs[f k]!.type = ty ∧ (k < vals.size → PlIn gs[f k]!.val vals[k]!.v)) ∧
+      (∀ j, j < gs.length → gs[j]!.type = ty → ∃ k, k < n ∧ f k = j) := by
+  obtain ⟨cnt, h2, h3, h4, h5, h6⟩ := H
+  have hb : ∀ k, ∃ i, k < n → (i < cnt.length ∧ hxStart cnt i ≤ k ∧ k < hxStart cnt (i + 1)) := by
+    intro k
+    by_cases hk : k < n
+    · obtain ⟨i, a1, a2, a3⟩ := hx_block_exists cnt k (by rw [h5]; exact hk)
+      exact ⟨i, fun _ => ⟨a1, a2, a3⟩⟩
+    · exact ⟨0, fun hh => absurd hh hk⟩
+  obtain ⟨blk, hblk⟩ := Classical.axiomOfChoice hb
+  have hget : ∀ k, k < n → (afcIdx ty gs)[blk k]? = some (afcIdx ty gs)[blk k]! := by
+    intro k hk
+    have hlt : blk k < (afcIdx ty gs).length := by rw [h2, ← h3]; exact (hblk k hk).1
+    rw [getElem!_pos (afcIdx ty gs) (blk k) hlt]
+    exact List.getElem?_eq_getElem hlt
+  have hblkmono : ∀ k k', k ≤ k' → k' < n → blk k ≤ blk k' := by
+    intro k k' hkk hk'
+    obtain ⟨_, a2, a3⟩ := hblk k (by omega)
+    obtain ⟨_, c2, c3⟩ := hblk k' hk'
+    rcases Nat.lt_or_ge (blk k') (blk k) with hlt | hge
+    · have := afc_hxStart_mono cnt (show blk k' + 1 ≤ blk k by omega)
+      omega
+    · exact hge
+  refine ⟨fun k => (afcIdx ty gs)[blk k]!, fun k k' hkk hk' => ?_, fun k hk => ?_, fun j hj hty => ?_⟩
+  · show (afcIdx ty gs)[blk k]! ≤ (afcIdx ty gs)[blk k']!
+    rcases Nat.lt_or_ge (blk k) (blk k') with hlt | hge
+    · exact Nat.le_of_lt (afc_idx_mono (hget k (by omega)) (hget k' hk') hlt)
+    · have : blk k = blk k' := Nat.le_antisymm (hblkmono k k' hkk hk') hge
+      rw [this]; exact Nat.le_refl _
+  · obtain ⟨a1, a2, a3⟩ := hblk k hk
+    obtain ⟨b1, b2⟩ := afcIdx_lt (hget k hk)
+    exact ⟨b1, b2, fun hks => h6 _ _ (hget k hk) k a2 a3 hks⟩
+  · have hmem : j ∈ afcIdx ty gs := by
+      unfold afcIdx hxIdx
+      rw [List.mem_filter]
+      exact ⟨List.mem_range.2 hj, by simpa using hty⟩
+    obtain ⟨i, hi, hij⟩ := List.getElem_of_mem hmem
+    have hic : i < cnt.length := by rw [h3, ← h2]; exact hi
+    have hpos : 0 < cnt[i] := h4 _ (List.getElem_mem hic)
+    have hs := afc_hxStart_succ cnt i hic
+    have hle := hxStart_le cnt (i + 1)
+    have hkn : hxStart cnt i < n := by omega
+    refine ⟨hxStart cnt i, hkn, ?_⟩
+    obtain ⟨a1, a2, a3⟩ := hblk (hxStart cnt i) hkn
+    have : blk (hxStart cnt i) = i :=
+      hx_block_unique cnt (hxStart cnt i) _ _ a2 a3 (Nat.le_refl _) (by omega)
+    show (afcIdx ty gs)[blk (hxStart cnt i)]! = j
+    rw [this, getElem!_pos (afcIdx ty gs) i hi]
+    exact hij
+
+/-- the pinned statement implies the one of PaiLines (`PlAssoc`: the comparison only if the line is stored) -/
+theorem AfcAssoc.plAssoc {ty : Nat} {gs : List Hdr} {hl : HdrLst} {vals : Array PFromBody} {n hNo : Nat}
+    (S : AfcStored gs hl) (H : AfcAssoc ty gs vals n hNo) : PlAssoc ty hl vals n := by
+  obtain ⟨f, hm, hf, _⟩ := H.map
+  refine ⟨f, hm, fun k hk => ?_⟩
+  obtain ⟨a1, a2, a3⟩ := hf k hk
+  refine ⟨by rw [← S.1]; exact a1, fun hks hfs => ?_⟩
+  rw [S.2 (f k) (by rw [← S.1]; exact a1) hfs]
+  exact ⟨a2, a3 hks⟩
+
+theorem AfcMsg.plMsg {gs : List Hdr} {m : PSIPMsg} (h : AfcMsg gs m) : PlMsg m :=
+  ⟨h.contacts.plAssoc h.stored, h.pais.plAssoc h.stored⟩
+
+/-- **`AfcMsg`, spelled out for the Contact values** (the identities: the same with `pais`): `gs` has one entry per counted
+    header line, the stored headers are entries of `gs`, and there is a monotone map `f` into the positions of `gs` with:
+    line `f k` is a Contact line; stored value `k` has at least one byte and lies inside the `val` of line `f k`, stored
+    or not; every Contact line is hit; and `HNo` is the number of Contact lines in `gs` -/
+theorem AfcMsg.meaning {gs : List Hdr} {m : PSIPMsg} (h : AfcMsg gs m) :
+    gs.length = m.hl.n ∧ (∀ j, j < m.hl.n → j < m.hl.hdrs.size → m.hl.hdrs[j]! = gs[j]!) ∧
+    ((List.range gs.length).filter (fun j => gs[j]!.type == HdrContact)).length = m.pv.contacts.hNo ∧
+    ∃ f : Nat → Nat, (∀ k k', k ≤ k' → k' < m.pv.contacts.n → f k ≤ f k') ∧
+      (∀ k, k < m.pv.contacts.n → f k < gs.length ∧ gs[f k]!.type = HdrContact ∧
+        (k < m.pv.contacts.vals.size → 0 < m.pv.contacts.vals[k]!.v.len ∧
+          gs[f k]!.val.offs ≤ m.pv.contacts.vals[k]!.v.offs ∧
+          m.pv.contacts.vals[k]!.v.offs + m.pv.contacts.vals[k]!.v.len ≤ gs[f k]!.val.offs + gs[f k]!.val.len)) ∧
+      (∀ j, j < gs.length → gs[j]!.type = HdrContact → ∃ k, k < m.pv.contacts.n ∧ f k = j) := by
+  obtain ⟨f, hm, hf, hon⟩ := h.contacts.map
+  obtain ⟨cnt, c1, _⟩ := h.contacts
+  refine ⟨h.stored.1, h.stored.2, c1, f, hm, fun k hk => ?_, hon⟩
+  obtain ⟨a1, a2, a3⟩ := hf k hk
+  exact ⟨a1, a2, fun hks => ⟨(a3 hks).1, (a3 hks).2.1, (a3 hks).2.2⟩⟩
+
+/-! #### non-vacuity, and the refutation of wrong assignments when the header array overflows
+  (closed computations by `decide +kernel`: tests / examples, not the general claims) -/
+
+/-- test message: two Contact lines (2 + 1 values) and a CSeq line -/
+def afcExBuf : Buf := "REGISTER sip:a@b SIP/2.0\r\nContact: <sip:a@b>, <sip:c@d>\r\nContact: <sip:e@f>\r\nCSeq: 1 REGISTER\r\n\r\n".toUTF8.data
+
+/-- Init object: header array of ONE entry (it overflows), contact array of four -/
+def afcExInit : PSIPMsg :=
+  ({} : PSIPMsg).init 0 ((some ()).map fun _ => Array.replicate 1 {}) ((some ()).map fun _ => Array.replicate 4 {})
+
+def afcExM : PSIPMsg := (parseSIPMsg afcExBuf 0 afcExInit 0).2.2
+
+/-- **the hypothesis of `afc_values_pinned_init` is satisfiable** (non-vacuity) and the theorem applies to the test -/
+theorem afcEx_msg : AfcMsg (afcMsgLines afcExBuf 0 afcExInit) afcExM := by
+  have h : (parseSIPMsg afcExBuf 0 afcExInit 0).2.1 = .ok := by decide +kernel
+  unfold afcExM
+  rcases hp : parseSIPMsg afcExBuf 0 afcExInit 0 with ⟨o', e', m'⟩
+  rw [hp] at h
+  simp only at h
+  subst h
+  exact afc_values_pinned_init afcExBuf 0 {} 0 1 4 (some ()) (some ()) 0 (by decide +kernel) (Nat.zero_le _) hp
+
+/-- test: what the objects look like.  Three lines accepted (Contact `val` = `[35, 55)`, Contact `[66, 75)`, CSeq), ONE
+    stored; three contact values `[35, 44)`, `[46, 55)`, `[66, 75)`, all stored; `HNo` = 2 -/
+theorem afcEx_facts :
+    (afcMsgLines afcExBuf 0 afcExInit).map (fun h => (h.type, h.val.offs, h.val.len)) =
+      [(HdrContact, 35, 20), (HdrContact, 66, 9), (HdrCSeq, 83, 10)] ∧
+    afcExM.hl.n = 3 ∧ afcExM.hl.hdrs.size = 1 ∧ afcExM.pv.contacts.n = 3 ∧ afcExM.pv.contacts.hNo = 2 ∧
+    afcExM.pv.contacts.vals.toList.map (fun f => (f.v.offs, f.v.len)) = [(35, 9), (46, 9), (66, 9), (0, 0)] ∧
+    afcIdx HdrContact (afcMsgLines afcExBuf 0 afcExInit) = [0, 1] := by decide +kernel
+
+/-- test: **the statement of PaiLines (`PlAssoc`) accepts the constant map** `f = HdrLst.N - 1` on this object: all three
+    contact values "belong" to the CSeq line, because that line is not stored -/
+theorem afcEx_old_accepts_const :
+    (∀ k k', k ≤ k' → k' < afcExM.pv.contacts.n → (fun _ : Nat => afcExM.hl.n - 1) k ≤ (fun _ : Nat => afcExM.hl.n - 1) k') ∧
+    ∀ k, k < afcExM.pv.contacts.n → (fun _ : Nat => afcExM.hl.n - 1) k < afcExM.hl.n ∧
+      (k < afcExM.pv.contacts.vals.size → (fun _ : Nat => afcExM.hl.n - 1) k < afcExM.hl.hdrs.size →
+        afcExM.hl.hdrs[(fun _ : Nat => afcExM.hl.n - 1) k]!.type = HdrContact ∧
+        PlIn afcExM.hl.hdrs[(fun _ : Nat => afcExM.hl.n - 1) k]!.val afcExM.pv.contacts.vals[k]!.v) := by
+  obtain ⟨_, h1, h2, _⟩ := afcEx_facts
+  refine ⟨fun _ _ _ _ => Nat.le_refl _, fun k _ => ⟨?_, fun _ hh => ?_⟩⟩
+  · show afcExM.hl.n - 1 < afcExM.hl.n
+    omega
+  · exfalso
+    have hh' : afcExM.hl.n - 1 < afcExM.hl.hdrs.size := hh
+    omega
+
+/-- test: **the pinned statement (`AfcAssoc.map`) is satisfied by NO constant map** on this object -/
+theorem afcEx_const_refuted (c : Nat) :
+    ¬ (∀ k, k < afcExM.pv.contacts.n → c < (afcMsgLines afcExBuf 0 afcExInit).length ∧
+        (afcMsgLines afcExBuf 0 afcExInit)[c]!.type = HdrContact ∧
+        (k < afcExM.pv.contacts.vals.size →
+          PlIn (afcMsgLines afcExBuf 0 afcExInit)[c]!.val afcExM.pv.contacts.vals[k]!.v)) := by
+  intro h
+  have hn : afcExM.pv.contacts.n = 3 := afcEx_facts.2.2.2.1
+  have hs : afcExM.pv.contacts.vals.size = 4 := by decide +kernel
+  have hlen : (afcMsgLines afcExBuf 0 afcExInit).length = 3 := by decide +kernel
+  obtain ⟨a1, a2, a3⟩ := h 0 (by omega)
+  obtain ⟨_, _, c3⟩ := h 2 (by omega)
+  have a3' := a3 (by omega)
+  have c3' := c3 (by omega)
+  rw [hlen] at a1
+  have hc : c = 0 ∨ c = 1 ∨ c = 2 := by omega
+  rcases hc with rfl | rfl | rfl
+  · revert c3'; unfold PlIn svInside; decide +kernel
+  · revert a3'; unfold PlIn svInside; decide +kernel
+  · revert a2; decide +kernel
+
+/-- test: **wrong counts are refuted**: `[1, 2]` (second value assigned to the second, NOT stored, Contact line) does not
+    satisfy `AfcBlocks` — the statement of HnoExact (`HxAssoc`) would not notice, the second line not being stored -/
+theorem afcEx_wrong_counts_refuted :
+    ¬ AfcBlocks HdrContact (afcMsgLines afcExBuf 0 afcExInit) afcExM.pv.contacts.vals [1, 2] := by
+  intro h
+  have := h 1 1 (by decide +kernel) 1 (by decide) (by decide) (by decide +kernel)
+  revert this; unfold PlIn svInside; decide +kernel
+
+/-- test: hence on this object the counts are DETERMINED: `[2, 1]` -/
+theorem afcEx_counts_determined (cnt : List Nat) (h2 : cnt.length = afcExM.pv.contacts.hNo) (h3 : ∀ c ∈ cnt, 0 < c)
+    (h4 : cnt.sum = afcExM.pv.contacts.n)
+    (h5 : AfcBlocks HdrContact (afcMsgLines afcExBuf 0 afcExInit) afcExM.pv.contacts.vals cnt) : cnt = [2, 1] := by
+  rw [afcEx_facts.2.2.2.2.1] at h2
+  rw [afcEx_facts.2.2.2.1] at h4
+  match cnt, h2 with
+  | [a, c], _ =>
+    have ha := h3 a (by simp)
+    have hc := h3 c (by simp)
+    simp only [List.sum_cons, List.sum_nil] at h4
+    have : (a = 1 ∧ c = 2) ∨ (a = 2 ∧ c = 1) := by omega
+    rcases this with ⟨rfl, rfl⟩ | ⟨rfl, rfl⟩
+    · exact absurd h5 afcEx_wrong_counts_refuted
+    · rfl
+
+/-! ## (S10) C17: the completions of a rejected / suspended parameter text, with the witness explicit -/
+
+theorem afc_pvExt_size (st : TPState) : (pvExt st).size ≤ 4 := by
+  cases st <;> decide
+
+/-- **the text before a rejected byte is a proper prefix of a parameter of the grammar, witness explicit**: if `BadChar`
+    is reported at `p`, then `p` is a position of the buffer and there are at most FIVE bytes `s` such that the buffer
+    `b[0:p] ++ s` — which has the bytes of `b` below `p` — holds a parameter of the grammar `PSParam` at `o`, accepted
+    with `EOH` -/
+theorem afc_badChar_prefix_extends {b : Buf} {flags o p : Nat} (h : PVBad b flags o p) :
+    ∃ s o' p', s.size ≤ 5 ∧ p < b.size ∧ PVAgree b (b.extract 0 p ++ s) p ∧
+      PSParam (b.extract 0 p ++ s) flags {} o o' .eoh p' := by
+  cases h with
+  | byte st c hP hb hrej =>
+    have hlt := get?_lt hb
+    obtain ⟨hsz, hag⟩ := pv_agree_extract b p (by omega)
+    have hP1 : PVAt (b.extract 0 p) flags o (b.extract 0 p).size st := by
+      rw [hsz]; exact hP.pv_agree hag
+    obtain ⟨o', p', H⟩ := pv_complete_at_end hP1
+    refine ⟨pvExt st, o', p', by have := afc_pvExt_size st; omega, hlt, hag.trans ?_, H⟩
+    have := PVAgree.append (b.extract 0 p) (pvExt st)
+    rw [hsz] at this
+    exact this
+  | quoted q v0 c he hl h34 hpre hc hbad =>
+    have hlt := get?_lt hc
+    obtain ⟨hsz, hag⟩ := pv_agree_extract b p (by omega)
+    have hag2 : PVAgree b (b.extract 0 p ++ #[34, 13, 10, 120]) p := by
+      refine hag.trans ?_
+      have := PVAgree.append (b.extract 0 p) #[34, 13, 10, 120]
+      rw [hsz] at this
+      exact this
+    have hle := hpre.le
+    have hl1 := hl.le
+    have g : ∀ k, (b.extract 0 p ++ #[34, 13, 10, 120])[p + k]? = (#[34, 13, 10, 120] : Buf)[k]? := by
+      intro k
+      have := pv_get_app (b.extract 0 p) #[34, 13, 10, 120] k
+      rw [hsz] at this
+      exact this
+    exact ⟨#[34, 13, 10, 120], _, _, by decide, hlt, hag2,
+      (pv_complete_quoted (he.pv_agree (hag2.mono (by omega))) (hl.pv_agree (hag2.mono (by omega)))
+        (hag2.get (by omega) h34) (hpre.pv_agree hag2) (g 0) ⟨g 1, g 2, g 3⟩).choose_spec⟩
+  | quotedEsc q v0 m c he hl h34 hpre h92 hpm hc hcr =>
+    subst hpm
+    have hlt := get?_lt hc
+    obtain ⟨hsz, hag⟩ := pv_agree_extract b (m + 1) (by omega)
+    have hag2 : PVAgree b (b.extract 0 (m + 1) ++ #[97, 34, 13, 10, 120]) (m + 1) := by
+      refine hag.trans ?_
+      have := PVAgree.append (b.extract 0 (m + 1)) #[97, 34, 13, 10, 120]
+      rw [hsz] at this
+      exact this
+    have hle := hpre.le
+    have hl1 := hl.le
+    have g : ∀ k, (b.extract 0 (m + 1) ++ #[97, 34, 13, 10, 120])[m + 1 + k]? =
+        (#[97, 34, 13, 10, 120] : Buf)[k]? := by
+      intro k
+      have := pv_get_app (b.extract 0 (m + 1)) #[97, 34, 13, 10, 120] k
+      rw [hsz] at this
+      exact this
+    have hpre2 := (hpre.pv_agree (hag2.mono (by omega))).pv_snoc_esc (hag2.get (by omega) h92) (g 0) (by decide)
+    exact ⟨#[97, 34, 13, 10, 120], _, _, by decide, hlt, hag2,
+      (pv_complete_quoted (he.pv_agree (hag2.mono (by omega)))
+        (hl.pv_agree (hag2.mono (by omega))) (hag2.get (by omega) h34) hpre2 (g 1) ⟨g 2, g 3, g 4⟩).choose_spec⟩
+
+/-- … from the call: `BadChar` at `p` on a new object -/
+theorem afc_badChar_call_extends {b : Buf} {flags o p : Nat} {p' : PTokParam}
+    (h : parseTokenParam b o {} flags = (p, .badChar, p')) :
+    ∃ s o' p'', s.size ≤ 5 ∧ p < b.size ∧ PVAgree b (b.extract 0 p ++ s) p ∧
+      PSParam (b.extract 0 p ++ s) flags {} o o' .eoh p'' :=
+  afc_badChar_prefix_extends (tokparam_badChar_sound h)
+
+/-- **a suspended text is a proper prefix of a parameter of the grammar, with the size of the witness**: if the call
+    (no end-of-input option, start offset inside the buffer) returns `MoreBytes`, there are at most SIX bytes `s` such
+    that `b ++ s` holds a parameter of the grammar `PSParam` at `o`, accepted with `EOH` -/
+theorem afc_moreBytes_extends {b : Buf} {flags o r : Nat} {p' : PTokParam} (ho : o ≤ b.size)
+    (hf : hasFlag flags POptInputEndF = false) (h : parseTokenParam b o {} flags = (r, .moreBytes, p')) :
+    ∃ s o' p'', s.size ≤ 6 ∧ PSParam (b ++ s) flags {} o o' .eoh p'' := by
+  have hr := (parseTokenParam_range b o {} flags hf ho h).2
+  cases tokparam_moreBytes_sound h with
+  | lws st q hP hnq hlw hend =>
+    have hq := hlw.pv_le_size hr
+    have hrq := hlw.le
+    have hag := PVAgree.append b #[32]
+    have hsz : (b ++ #[32]).size = b.size + 1 := by rw [Array.size_append]; rfl
+    have hlw0 : Lws (b ++ #[32]) r (b ++ #[32]).size := by
+      rw [hsz]
+      exact (hlw.pv_agree (hag.mono hq)).ps_trans (pv_endTail_space hq hend)
+    have hP0 : PVAt (b ++ #[32]) flags o (b ++ #[32]).size (pvNext st) :=
+      (hP.pv_agree (hag.mono hr)).lws_next hlw0 (by omega) hnq
+    obtain ⟨o', p'', H⟩ := pv_complete_at_end hP0
+    refine ⟨#[32] ++ pvExt (pvNext st), o', p'', ?_, by rw [← Array.append_assoc]; exact H⟩
+    have := afc_pvExt_size (pvNext st)
+    rw [Array.size_append]
+    show 1 + _ ≤ 6
+    omega
+  | quoted q v0 he hl h34 hpre hn =>
+    have h1 := get?_none_ge hn
+    have e : r = b.size := by omega
+    subst e
+    have hag := PVAgree.append b #[34, 13, 10, 120]
+    have hle := hpre.le
+    have hl1 := hl.le
+    exact ⟨#[34, 13, 10, 120], _, _, by decide, (pv_complete_quoted (he.pv_agree (hag.mono (by omega)))
+      (hl.pv_agree (hag.mono (by omega))) (hag.get (by omega) h34) (hpre.pv_agree hag) (pv_get_app b _ 0)
+      ⟨pv_get_app b _ 1, pv_get_app b _ 2, pv_get_app b _ 3⟩).choose_spec⟩
+  | quotedEsc q v0 he hl h34 hpre h92 hn =>
+    have h1 := get?_none_ge hn
+    have h2 := get?_lt h92
+    have e : b.size = r + 1 := by omega
+    have hag := PVAgree.append b #[97, 34, 13, 10, 120]
+    have hle := hpre.le
+    have hl1 := hl.le
+    have g : ∀ k, (b ++ #[97, 34, 13, 10, 120])[r + 1 + k]? = (#[97, 34, 13, 10, 120] : Buf)[k]? := by
+      intro k
+      have := pv_get_app b #[97, 34, 13, 10, 120] k
+      rw [e] at this
+      exact this
+    have hpre2 := (hpre.pv_agree (hag.mono (by omega))).pv_snoc_esc (hag.get (by omega) h92) (g 0) (by decide)
+    exact ⟨#[97, 34, 13, 10, 120], _, _, by decide, (pv_complete_quoted (he.pv_agree (hag.mono (by omega)))
+      (hl.pv_agree (hag.mono (by omega))) (hag.get (by omega) h34) hpre2 (g 1) ⟨g 2, g 3, g 4⟩).choose_spec⟩
+
+/-- non-vacuity of `afc_badChar_call_extends` (`a b`: the second token is rejected at its first byte) and of
+    `afc_moreBytes_extends` (unfinished white space) -/
+example : ∃ s o' p'', s.size ≤ 5 ∧ 2 < "a b".toUTF8.data.size ∧ PVAgree "a b".toUTF8.data ("a b".toUTF8.data.extract 0 2 ++ s) 2 ∧
+    PSParam ("a b".toUTF8.data.extract 0 2 ++ s) 0 {} 0 o' .eoh p'' := by
+  have h1 : (parseTokenParam "a b".toUTF8.data 0 {} 0).1 = 2 ∧ (parseTokenParam "a b".toUTF8.data 0 {} 0).2.1 = .badChar := by
+    decide +kernel
+  rcases hr : parseTokenParam "a b".toUTF8.data 0 {} 0 with ⟨r, e, p'⟩
+  rw [hr] at h1
+  obtain ⟨h1, h2⟩ := h1
+  simp only at h1 h2
+  subst h1 h2
+  exact afc_badChar_call_extends hr
+
+example : ∃ s o' p'', s.size ≤ 6 ∧ PSParam ("a = b \r\n".toUTF8.data ++ s) 0 {} 0 o' .eoh p'' := by
+  have h1 : (parseTokenParam "a = b \r\n".toUTF8.data 0 {} 0).2.1 = .moreBytes := by decide +kernel
+  rcases hr : parseTokenParam "a = b \r\n".toUTF8.data 0 {} 0 with ⟨r, e, p'⟩
+  rw [hr] at h1
+  simp only at h1
+  subst h1
+  exact afc_moreBytes_extends (by decide) (by decide) hr
+
+/-! ## (S9) C04 / C05: the schedule theorems stated on the LAST buffer of the schedule -/
+
+/-- what is guaranteed about GetMsgSig on the final object of a chain of calls, against the last buffer `B` of the
+    schedule: no panic on `B`, no panic and the same result on every extension of `B`, and — in the two end states
+    GetMsgSig reads — the retained length `len(msg.Buf)` does not exceed `len(B)` -/
+def AfcSigLast (B : Buf) (m' : PSIPMsg) : Prop :=
+  (getMsgSig m' B).2.2 = false ∧
+  (∀ s, (getMsgSig m' (B ++ s)).2.2 = false ∧ getMsgSig m' (B ++ s) = getMsgSig m' B) ∧
+  (m'.state = .fin ∨ m'.state = .noCLen → m'.bufLen ≤ B.size)
+
+/-- **[C04] every chunk schedule from any legitimate object, whatever verdict the chain ends with, stated on the last
+    buffer `B` of the schedule** -/
+theorem afc_sig_never_panics_last_from (flags : Nat) (o : Nat) (m : PSIPMsg) (l : List Buf)
+    (hg : Growing l) (hfit : ∀ x ∈ l, x.size ≤ 65535) (hI : ScMsg m)
+    (h0 : ∀ b ∈ l.head?, msgOK2 b o m ∧ MsgSafe b o m) {B : Buf} (hB : l.getLast? = some B) :
+    AfcSigLast B (resumeRun (C01.msgP flags) o m l).2.2 := by
+  have hne : l ≠ [] := by intro hh; rw [hh] at hB; cases hB
+  have key : ∃ b ∈ l, SgSigFine b (resumeRun (C01.msgP flags) o m l).2.2 ∧
+      ((resumeRun (C01.msgP flags) o m l).2.2.state = .fin ∨ (resumeRun (C01.msgP flags) o m l).2.2.state = .noCLen →
+        (resumeRun (C01.msgP flags) o m l).2.2.bufLen ≤ b.size) := by
+    refine resumeRun_post (C01.msgP flags) (fun b o m => msgOK2 b o m ∧ MsgSafe b o m ∧ ScMsg m)
+      (fun b _ r => SgSigFine b r.2.2 ∧ (r.2.2.state = .fin ∨ r.2.2.state = .noCLen → r.2.2.bufLen ≤ b.size))
+      (fun b => b.size ≤ 65535) ?_ (fun b o o' r _ q => q)
+      o m l hg hfit hne (fun b hb => ⟨(h0 b hb).1, (h0 b hb).2, hI⟩)
+    intro b o m hfit hInv
+    obtain ⟨hok, hS, hI⟩ := hInv
+    have hT := parseSIPMsg_safe b o m flags hfit hok hS
+    have hsc := (sc_parseSIPMsg b o m flags hI).1
+    refine ⟨⟨sg_sig_fine b o m flags hfit hI hok hS, fun hc => ?_⟩, fun hmb => ⟨hT.ge (Or.inr hmb), fun s => ?_⟩⟩
+    · have hD := sg_complete_done b o m flags hfit hI hok hS hc
+      show (parseSIPMsg b o m flags).2.2.bufLen ≤ b.size
+      rw [hD.bufLen]; exact hD.le
+    · show msgOK2 (b ++ s) (parseSIPMsg b o m flags).1 (parseSIPMsg b o m flags).2.2 ∧
+        MsgSafe (b ++ s) (parseSIPMsg b o m flags).1 (parseSIPMsg b o m flags).2.2 ∧ ScMsg (parseSIPMsg b o m flags).2.2
+      have hmb' : (parseSIPMsg b o m flags).2.1 = .moreBytes := hmb
+      rcases hp : parseSIPMsg b o m flags with ⟨o1, e1, m1⟩
+      rw [hp] at hmb' hT hsc
+      simp only at hmb'
+      subst hmb'
+      have hr := parseSIPMsg_resume b s o m flags flags hok hfit hp
+      exact ⟨hr.2.1, (hT.more rfl).grow (by rw [Array.size_append]; omega), hsc⟩
+  obtain ⟨b, hb, hF, hlen⟩ := key
+  obtain ⟨t, rfl⟩ := mlf_growing_last hg hB b hb
+  refine ⟨hF.ext t, fun s => ?_, fun hc => ?_⟩
+  · rw [Array.append_assoc]
+    exact ⟨hF.ext _, by rw [hF.2 (t ++ s), hF.2 t]⟩
+  · have := hlen hc
+    rw [Array.size_append]; omega
+
+/-- **[C04] every chunk schedule from Init, whatever verdict the chain ends with (OK, MoreBytes, NoCLen, any error),
+    stated on the last buffer `B` of the schedule** (`l.getLast? = some B`): GetMsgSig on the final object does not
+    panic against `B`, nor against any extension of `B`, with the same result; in the completed states
+    `len(msg.Buf) ≤ len(B)` -/
+theorem afc_sig_never_panics_last (flags : Nat) (o : Nat) (m0 : PSIPMsg) (len kh kc : Nat)
+    (hdrs cts : Option Unit) (l : List Buf) (hg : Growing l) (hfit : ∀ x ∈ l, x.size ≤ 65535)
+    (ho : ∀ b ∈ l, o ≤ b.size) {B : Buf} (hB : l.getLast? = some B) {o' : Nat} {e : Err} {m' : PSIPMsg}
+    (hr : resumeRun (C01.msgP flags) o
+      (m0.init len (hdrs.map fun _ => Array.replicate kh {}) (cts.map fun _ => Array.replicate kc {})) l = (o', e, m')) :
+    AfcSigLast B m' := by
+  have h0 : ∀ b ∈ l.head?, o ≤ b.size := by
+    intro b hb
+    cases l with
+    | nil => cases hb
+    | cons x xs => simp at hb; subst hb; exact ho _ List.mem_cons_self
+  have := afc_sig_never_panics_last_from flags o _ l hg hfit (ScMsg_init m0 len kh kc hdrs cts)
+    (fun b hb => ⟨msgOK2_init b o (h0 b hb) m0 len kh kc hdrs cts, MsgSafe_init b o (h0 b hb) m0 len kh kc hdrs cts⟩) hB
+  rw [hr] at this
+  exact this
+
+theorem afc_HxNL_app {b : Buf} {i : Nat} (h : HxNL b i) (t : Buf) : HxNL (b ++ t) i := by
+  obtain ⟨c, h1, h2, h3⟩ := h
+  exact ⟨c, h1, get?_app h2, h3⟩
+
+theorem afc_HxTrC_app {b : Buf} {e : Err} {v : PField} (h : HxTrC b e v) (t : Buf) : HxTrC (b ++ t) e v := by
+  rcases h with h | ⟨h1, h2, j, c0, a1, a2, a3, a4, a5⟩
+  · exact Or.inl (afc_HxNL_app h t)
+  · refine Or.inr ⟨h1, get?_app h2, j, c0, a1, get?_app a2, a3, a4, fun k k1 k2 => ?_⟩
+    obtain ⟨c', q1, q2⟩ := a5 k k1 k2
+    exact ⟨c', get?_app q1, q2⟩
+
+/-- **[C05] trimming under every chunk schedule from Init, stated on the last buffer `B` of the schedule**: if the chain
+    ends with OK, then — reading the bytes in `B` — the From and To values (if parsed) do not end with white space,
+    every stored Contact / identity value does not end with white space except in the one shape of `HxTrC`; the
+    message is complete and `len(msg.Buf)` = the returned offset `≤ len(B)` -/
+theorem afc_msg_trim_last (flags : Nat) (o : Nat) (m0 : PSIPMsg) (len kh kc : Nat)
+    (hdrs cts : Option Unit) (l : List Buf) (hg : Growing l) (hfit : ∀ x ∈ l, x.size ≤ 65535)
+    (ho : ∀ b ∈ l, o ≤ b.size) {B : Buf} (hB : l.getLast? = some B) {o' : Nat} {m' : PSIPMsg}
+    (hr : resumeRun (C01.msgP flags) o
+      (m0.init len (hdrs.map fun _ => Array.replicate kh {}) (cts.map fun _ => Array.replicate kc {})) l = (o', .ok, m')) :
+    (m'.pv.from_.parsed = true → HxNL B (m'.pv.from_.v.offs + m'.pv.from_.v.len)) ∧
+    (m'.pv.to.parsed = true → HxNL B (m'.pv.to.v.offs + m'.pv.to.v.len)) ∧
+    (∀ k, k < m'.pv.contacts.n → k < m'.pv.contacts.vals.size → HxTrC B .moreValues m'.pv.contacts.vals[k]!.v) ∧
+    (∀ k, k < m'.pv.pais.n → k < m'.pv.pais.vals.size → HxTrC B .moreValues m'.pv.pais.vals[k]!.v) ∧
+    m'.bufLen = o' ∧ o' ≤ B.size := by
+  have hne : l ≠ [] := by intro hh; rw [hh] at hB; cases hB
+  obtain ⟨b, hb, h⟩ := flo_schedule_init flags o m0 len kh kc hdrs cts l hg hfit hne ho hr
+  obtain ⟨q1, q2, q3, q4⟩ := hx_msg_trim_init b o m0 len kh kc hdrs cts flags (hfit b hb) (ho b hb) h
+  have hD := sg_parseSIPMsg_done_ok b o _ flags (hfit b hb) (ScMsg_init m0 len kh kc hdrs cts)
+    (msgOK2_init b o (ho b hb) m0 len kh kc hdrs cts) (MsgSafe_init b o (ho b hb) m0 len kh kc hdrs cts)
+    (by rw [h])
+  rw [h] at hD
+  obtain ⟨t, rfl⟩ := mlf_growing_last hg hB b hb
+  refine ⟨fun hp => afc_HxNL_app (q1 hp) t, fun hp => afc_HxNL_app (q2 hp) t,
+    fun k k1 k2 => afc_HxTrC_app (q3 k k1 k2) t, fun k k1 k2 => afc_HxTrC_app (q4 k k1 k2) t, hD.bufLen, ?_⟩
+  have := hD.le
+  rw [Array.size_append]
+  exact Nat.le_trans this (Nat.le_add_right _ _)
+
+/-- non-vacuity of `afc_sig_never_panics_last`: the schedule of SigGuardSafe (message cut after 50 and 100 bytes, ends
+    with NoCLen); `B` is the whole message -/
+example : AfcSigLast sgTestNoCL (resumeRun (C01.msgP 3) 0 sgTestInit sgTestCuts).2.2 :=
+  afc_sig_never_panics_last 3 0 {} 0 0 0 none none sgTestCuts sgTestCuts_growing sgTestCuts_fit
+    (fun _ _ => Nat.zero_le _) (B := sgTestNoCL) rfl
+    (o' := (resumeRun (C01.msgP 3) 0 sgTestInit sgTestCuts).1)
+    (e := (resumeRun (C01.msgP 3) 0 sgTestInit sgTestCuts).2.1) rfl
+
+/-- a schedule for the trimming test message of HnoExact: cut inside the Contact value and before the CSeq line -/
+def afcTrimCuts : List Buf := [hxTrimMsg.extract 0 40, hxTrimMsg.extract 0 62, hxTrimMsg]
+
+/-- non-vacuity of `afc_msg_trim_last` (test: the chain ends with OK) -/
+example : ∃ o' m', resumeRun (C01.msgP 0) 0 (({} : PSIPMsg).init 0 ((some ()).map fun _ => Array.replicate 4 {})
+      ((some ()).map fun _ => Array.replicate 4 {})) afcTrimCuts = (o', .ok, m') ∧
+    (∀ k, k < m'.pv.contacts.n → k < m'.pv.contacts.vals.size → HxTrC hxTrimMsg .moreValues m'.pv.contacts.vals[k]!.v) ∧
+    m'.bufLen = o' ∧ o' ≤ hxTrimMsg.size := by
+  have hg : Growing afcTrimCuts :=
+    ⟨⟨hxTrimMsg.extract 40 62, by decide +kernel⟩, ⟨hxTrimMsg.extract 62 hxTrimMsg.size, by decide +kernel⟩, trivial⟩
+  have hfit : ∀ x ∈ afcTrimCuts, x.size ≤ 65535 := by decide +kernel
+  have he : (resumeRun (C01.msgP 0) 0 (({} : PSIPMsg).init 0 ((some ()).map fun _ => Array.replicate 4 {})
+      ((some ()).map fun _ => Array.replicate 4 {})) afcTrimCuts).2.1 = .ok := by decide +kernel
+  rcases hp : resumeRun (C01.msgP 0) 0 (({} : PSIPMsg).init 0 ((some ()).map fun _ => Array.replicate 4 {})
+      ((some ()).map fun _ => Array.replicate 4 {})) afcTrimCuts with ⟨o', e', m'⟩
+  rw [hp] at he
+  simp only at he
+  subst he
+  have := afc_msg_trim_last 0 0 {} 0 4 4 (some ()) (some ()) afcTrimCuts hg hfit (fun _ _ => Nat.zero_le _)
+    (B := hxTrimMsg) rfl hp
+  exact ⟨o', m', rfl, this.2.2.1, this.2.2.2.2.1, this.2.2.2.2.2⟩
+
+/-! ## (S8) C09: `rc_msg_lists_init` and its schedule forms, keeping the first-line conjunct of `rc_msg_lists` -/
+
+theorem afc_init_fl (m0 : PSIPMsg) (len kh kc : Nat) (hdrs cts : Option Unit) :
+    (m0.init len (hdrs.map fun _ => Array.replicate kh {}) (cts.map fun _ => Array.replicate kc {})).fl = {} := by
+  cases hdrs <;> cases cts <;> rfl
+
+/-- **ONE call of ParseSIPMsg on an object produced by Init, with the first line**: the statement of `rc_msg_lists_init`,
+    and `o1` — where the header block starts — is the offset ParseFLine (run on a new first-line object at `o`)
+    returns with the verdict OK -/
+theorem afc_msg_lists_init (b : Buf) (o : Nat) (m0 : PSIPMsg) (len kh kc : Nat) (hdrs cts : Option Unit)
+    (flags : Nat) (hfit : b.size ≤ 65535) {o' : Nat} {m' : PSIPMsg}
+    (hr : parseSIPMsg b o (m0.init len (hdrs.map fun _ => Array.replicate kh {}) (cts.map fun _ => Array.replicate kc {}))
+      flags = (o', .ok, m')) :
+    ∃ o1 e hs evs, (parseFLine b o {}).1 = o1 ∧ (parseFLine b o {}).2.1 = .ok ∧ hs ≠ [] ∧
+      RcBlock b o1 (afbNewHv (rcCap cts kc)) hs evs e m'.pv ∧
+      m'.hl = ((hsNew (rcCap hdrs kh)).acceptAll hs).setCur { state := .fin } ∧
+      m'.pv.contacts =
+        ({ vals := Array.replicate (rcCap cts kc) {} } : PContacts).htLines (rcCtOf evs) ∧
+      m'.pv.pais = ({} : PPAIs).htLines (rcPaOf evs) := by
+  obtain ⟨q1, q2, q3⟩ := rc_init_lists m0 len kh kc hdrs cts
+  obtain ⟨o1, e, hs, evs, f1, f2, hne, H, hl⟩ := rc_msg_lists b o _ flags hfit q1
+    (by rw [q2]; exact (hsNew_ok _).1) (by rw [q2]; exact (hsNew_ok _).2) (by rw [q2]; rfl)
+    (by rw [q3]; exact rc_newHv_ready _) hr
+  rw [q3] at H
+  rw [q2] at hl
+  rw [afc_init_fl] at f1 f2
+  exact ⟨o1, e, hs, evs, f1, f2, hne, H, hl, H.lists.1, H.lists.2⟩
+
+/-- **ParseSIPMsg from Init over EVERY chunk schedule, with the first line** (in the buffer `b` of the call that
+    finished, a prefix of the last buffer `B`) -/
+theorem afc_msg_lists_schedule_init (flags : Nat) (o : Nat) (m0 : PSIPMsg) (len kh kc : Nat)
+    (hdrs cts : Option Unit) (l : List Buf) (hg : Growing l) (hfit : ∀ x ∈ l, x.size ≤ 65535) (B : Buf)
+    (hB : l.getLast? = some B) (ho : ∀ b ∈ l, o ≤ b.size) {o' : Nat} {m' : PSIPMsg}
+    (hr : resumeRun (C01.msgP flags) o
+      (m0.init len (hdrs.map fun _ => Array.replicate kh {}) (cts.map fun _ => Array.replicate kc {})) l = (o', .ok, m')) :
+    ∃ b ∈ l, (∃ t, B = b ++ t) ∧ ∃ o1 e hs evs, (parseFLine b o {}).1 = o1 ∧ (parseFLine b o {}).2.1 = .ok ∧ hs ≠ [] ∧
+      RcBlock b o1 (afbNewHv (rcCap cts kc)) hs evs e m'.pv ∧
+      m'.hl = ((hsNew (rcCap hdrs kh)).acceptAll hs).setCur { state := .fin } ∧
+      m'.pv.contacts =
+        ({ vals := Array.replicate (rcCap cts kc) {} } : PContacts).htLines (rcCtOf evs) ∧
+      m'.pv.pais = ({} : PPAIs).htLines (rcPaOf evs) := by
+  have hne : l ≠ [] := by intro h; rw [h] at hB; cases hB
+  obtain ⟨b, hb, h⟩ := flo_schedule_init flags o m0 len kh kc hdrs cts l hg hfit hne ho hr
+  exact ⟨b, hb, mlf_growing_last hg hB b hb, afc_msg_lists_init b o m0 len kh kc hdrs cts flags (hfit b hb) h⟩
+
+/-- **… stated in the WHOLE buffer `B`, with the first line**: ParseFLine on `B` itself (new first-line object, offset
+    `o`) says OK at `o1`, and `RcBlock B o1 …` -/
+theorem afc_msg_lists_schedule_whole (flags : Nat) (o : Nat) (m0 : PSIPMsg) (len kh kc : Nat)
+    (hdrs cts : Option Unit) (l : List Buf) (hg : Growing l) (hfit : ∀ x ∈ l, x.size ≤ 65535) (B : Buf)
+    (hB : l.getLast? = some B) (ho : ∀ b ∈ l, o ≤ b.size) {o' : Nat} {m' : PSIPMsg}
+    (hr : resumeRun (C01.msgP flags) o
+      (m0.init len (hdrs.map fun _ => Array.replicate kh {}) (cts.map fun _ => Array.replicate kc {})) l = (o', .ok, m')) :
+    ∃ o1 e hs evs, (parseFLine B o {}).1 = o1 ∧ (parseFLine B o {}).2.1 = .ok ∧ hs ≠ [] ∧
+      RcBlock B o1 (afbNewHv (rcCap cts kc)) hs evs e m'.pv ∧
+      m'.hl = ((hsNew (rcCap hdrs kh)).acceptAll hs).setCur { state := .fin } ∧
+      m'.pv.contacts = ({ vals := Array.replicate (rcCap cts kc) {} } : PContacts).htLines (rcCtOf evs) ∧
+      m'.pv.pais = ({} : PPAIs).htLines (rcPaOf evs) := by
+  obtain ⟨b, hb, ⟨t, rfl⟩, o1, e, hs, evs, f1, f2, q1, q2, q3, q4, q5⟩ :=
+    afc_msg_lists_schedule_init flags o m0 len kh kc hdrs cts l hg hfit B hB ho hr
+  rcases hp : parseFLine b o {} with ⟨a1, a2, a3⟩
+  rw [hp] at f1 f2
+  simp only at f1 f2
+  subst f1 f2
+  have hst := parseFLine_stable b t o {} (by unfold flOK; decide) (hfit b hb) hp (by decide)
+  exact ⟨_, e, hs, evs, by rw [hst], by rw [hst], q1, q2.app t, q3, q4, q5⟩
+
+/-- non-vacuity of `afc_msg_lists_schedule_whole`: the schedule of ResumedConverse (message cut inside a quoted string
+    and inside the From tag); the first line of the whole message ends at 24 -/
+example : ∃ e hs evs hv', (parseFLine rcExM 0 {}).1 = 24 ∧ (parseFLine rcExM 0 {}).2.1 = .ok ∧
+    RcBlock rcExM 24 (afbNewHv 1) hs evs e hv' := by
+  have hr := mlf_triple_eta _ rcExM_run.2.2.1 rcExM_run.2.2.2.1
+  obtain ⟨o1, e, hs, evs, f1, f2, _, H, _⟩ :=
+    afc_msg_lists_schedule_whole 0 0 {} 0 3 1 (some ()) (some ()) rcExMCuts rcExMCuts_growing
+      (by intro x hx; simp [rcExMCuts] at hx; rcases hx with rfl | rfl | rfl <;> decide) rcExM rfl
+      (fun _ _ => Nat.zero_le _) hr
+  have h24 : (parseFLine rcExM 0 {}).1 = 24 := by decide +kernel
+  rw [h24] at f1
+  subst f1
+  exact ⟨e, hs, evs, _, h24, f2, H⟩
+
+/-! ## (S4) C07: soundness of an accepted header block, the generic-treatment hypothesis restricted to the line starts
+  INSIDE the accepted block `[o, e)` -/
+
+/-- the generic treatment, restricted to `[o, e)`: no values object, or no line of the text that starts at `o` or after a
+    CR / LF at a position BELOW `e` carries one of the eight typed names (`HsGeneric` asks this of every line start of
+    the whole buffer) -/
+def AfcGenericIn (b : Buf) (o e : Nat) (hb : Option PHdrVals) : Prop :=
+  hb = none ∨ ∀ o', HsLineStart b o o' → o' < e → IsOther (getHdrType (b.extract o' (skipTokenDelim b o' 58)))
+
+theorem HsGeneric.afc_in {b : Buf} {o : Nat} {hb : Option PHdrVals} (h : HsGeneric b o hb) (e : Nat) :
+    AfcGenericIn b o e hb := by
+  rcases h with h | h
+  · exact Or.inl h
+  · exact Or.inr (fun o' ho' _ => h o' ho')
+
+theorem AfcGenericIn.next {b : Buf} {o e1 e : Nat} {hb : Option PHdrVals} {h : Hdr} (hg : AfcGenericIn b o e hb)
+    (H : HdrLineAt b o e1 h) : AfcGenericIn b e1 e hb := by
+  rcases hg with hg | hg
+  · exact Or.inl hg
+  · refine Or.inr (fun o' ho' hlt => hg o' ?_ hlt)
+    obtain ⟨hlt1, hc⟩ := hs_lineAt_last H
+    rcases ho' with rfl | ⟨h1, h2⟩
+    · exact Or.inr ⟨hlt1, hc⟩
+    · exact Or.inr ⟨by omega, h2⟩
+
+theorem afc_block_lt {b : Buf} {o e : Nat} {hs : List Hdr} (H : HdrBlock b o hs e) : o < e := by
+  induction H with
+  | nil o e he => cases he <;> omega
+  | cons o e1 e h hs hline _ ih => have := hline.gt.1; omega
+
+/-- in a block none of whose lines (line starts below its end) carries a typed name, every header is of a generic type -/
+theorem afc_block_generic {b : Buf} {o e : Nat} {hs : List Hdr} (H : HdrBlock b o hs e) {hb : Option PHdrVals}
+    (hg : AfcGenericIn b o e hb) : hb = none ∨ ∀ h ∈ hs, IsOther h.type := by
+  induction H with
+  | nil o e _ => exact Or.inr (fun h hh => by cases hh)
+  | cons o e1 e h hs hline H2 ih =>
+    rcases hg with hn | hg'
+    · exact Or.inl hn
+    · rcases ih (AfcGenericIn.next (Or.inr hg') hline) with hn | hrest
+      · exact Or.inl hn
+      · refine Or.inr (fun x hx => ?_)
+        rcases List.mem_cons.mp hx with rfl | hx
+        · rw [(hs_lineAt_type hline).1]
+          have := afc_block_lt H2
+          exact hg' o (Or.inl rfl) (by have := hline.gt.1; omega)
+        · exact hrest x hx
+
+/-- the induction, re-run with the restricted hypothesis: an accepted text is a block of the grammar -/
+theorem afc_block_of_ok (b : Buf) (hb : Option PHdrVals) (hfit : b.size ≤ 65535) :
+    ∀ (k o : Nat) (hl : HdrLst), b.size - o = k → HlsClean hl → hl.cur = {} →
+      ∀ {e : Nat} {er : Err} {hl' : HdrLst} {hb' : Option PHdrVals},
+        parseHeaders b o hl hb = (e, er, hl', hb') → (er = .ok ∨ er = .empty) → AfcGenericIn b o e hb →
+        ∃ hs, HdrBlock b o hs e := by
+  intro k
+  induction k using Nat.strongRecOn with
+  | _ k ih =>
+    intro o hl hk hc hcur e er hl' hb' hr her hg
+    obtain ⟨hs0, Hch, _, _⟩ := hs_block_names_all b hfit k o hl hb hk hc hcur hr her
+    have hoe : o < e := Hch.length_pos
+    have hhere : hb = none ∨ IsOther (getHdrType (b.extract o (skipTokenDelim b o 58))) := by
+      rcases hg with h | h
+      · exact Or.inl h
+      · exact Or.inr (h o (Or.inl rfl) hoe)
+    rw [parseHeaders] at hr
+    by_cases hlt : o < b.size
+    · rw [if_pos hlt, hcur] at hr
+      have hcases := hs_parseHdrLine_cases b o hb hfit hhere
+      rcases hp : parseHdrLine b o {} hb with ⟨n, e1, h, hb1⟩
+      rw [hp] at hcases hr
+      rcases hcases with ⟨h1, hline, h2⟩ | ⟨h1, hempty, _, _⟩ | h1 | h1
+      · have h1' : e1 = .ok := h1
+        have h2' : hb1 = hb := h2
+        subst h1' h2'
+        have hgt := hline.gt
+        simp only at hr
+        rw [if_pos hgt.1] at hr
+        have hcl := accept_clean hl h hc
+        obtain ⟨hs, H⟩ := ih (b.size - n) (by omega) n _ rfl hcl.1 hcl.2 hr her (hg.next hline)
+        exact ⟨h :: hs, HdrBlock.cons o n e h hs hline H⟩
+      · have h1' : e1 = .empty := h1
+        subst h1'
+        simp only at hr
+        have hen : n = e := by
+          by_cases hn : hl.n > 0
+          · rw [if_pos hn] at hr; cases hr; rfl
+          · rw [if_neg hn] at hr; cases hr; rfl
+        subst hen
+        exact ⟨[], HdrBlock.nil o n hempty⟩
+      · have h1' : e1 = .moreBytes := h1
+        subst h1'
+        cases hr
+        rcases her with h | h <;> cases h
+      · have h1' : e1 = .badChar := h1
+        subst h1'
+        cases hr
+        rcases her with h | h <;> cases h
+    · rw [if_neg hlt] at hr
+      cases hr
+      rcases her with h | h <;> cases h
+
+/-- **(2) soundness of an accepted block, hypothesis restricted to the accepted block**: if ParseHeaders ends with OK
+    (or "empty") at `e`, and no line start of `[o, e)` carries a typed name (or there is no values object), then `[o, e)`
+    is a block of the grammar and the list object is exactly what accepting its headers, in order, produces; the values
+    object is untouched.  Nothing is assumed about the bytes from `e` on. -/
+theorem afc_block_sound_in (b : Buf) (o : Nat) (hl : HdrLst) (hb : Option PHdrVals) (hfit : b.size ≤ 65535)
+    (hc : HlsClean hl) (hcur : hl.cur = {}) {e : Nat} {er : Err} {hl' : HdrLst} {hb' : Option PHdrVals}
+    (hr : parseHeaders b o hl hb = (e, er, hl', hb')) (her : er = .ok ∨ er = .empty) (hg : AfcGenericIn b o e hb) :
+    ∃ hs, HdrBlock b o hs e ∧ hl' = (hl.acceptAll hs).setCur { state := .fin } ∧ hb' = hb ∧
+      er = (if (hl.acceptAll hs).n > 0 then Err.ok else Err.empty) := by
+  obtain ⟨hs, H⟩ := afc_block_of_ok b hb hfit (b.size - o) o hl rfl hc hcur hr her hg
+  have := parseHeaders_block b hb hfit H hl hc hcur (afc_block_generic H hg)
+  rw [hr] at this
+  cases this
+  exact ⟨hs, H, rfl, rfl, rfl⟩
+
+/-- **ParseHeaders (new list object of any capacity) accepts at `e` iff `[o, e)` is a non-empty block of the grammar** —
+    for every `e` such that no line start of `[o, e)` carries a typed name (or without a values object) -/
+theorem afc_block_ok_iff_in (b : Buf) (o k : Nat) (hb : Option PHdrVals) (hfit : b.size ≤ 65535) (e : Nat)
+    (hg : AfcGenericIn b o e hb) (hl' : HdrLst) (hb' : Option PHdrVals) :
+    parseHeaders b o (hsNew k) hb = (e, .ok, hl', hb') ↔
+      ∃ hs, hs ≠ [] ∧ HdrBlock b o hs e ∧ hl' = ((hsNew k).acceptAll hs).setCur { state := .fin } ∧ hb' = hb := by
+  have hnew := hsNew_ok k
+  constructor
+  · intro hr
+    obtain ⟨hs, H, h1, h2, h3⟩ := afc_block_sound_in b o (hsNew k) hb hfit hnew.1 hnew.2 hr (Or.inl rfl) hg
+    refine ⟨hs, ?_, H, h1, h2⟩
+    intro hnil
+    subst hnil
+    have : ((hsNew k).acceptAll []).n = 0 := hs_new_count k []
+    rw [this] at h3
+    simp at h3
+  · rintro ⟨hs, hne, H, rfl, rfl⟩
+    have := parseHeaders_block b hb' hfit H (hsNew k) hnew.1 hnew.2 (afc_block_generic H hg)
+    rw [this, hs_new_count]
+    have : hs.length > 0 := by
+      cases hs with
+      | nil => exact absurd rfl hne
+      | cons _ _ => simp
+    rw [if_pos this]
+
+/-- **`block_sound` over EVERY chunk schedule, hypothesis restricted to the accepted block** of the whole buffer `B` -/
+theorem afc_block_sound_schedule_from (o kh : Nat) (hb : Option PHdrVals) (l : List Buf) (hg : Growing l) (B : Buf)
+    (hB : l.getLast? = some B) (hfit : B.size ≤ 65535) (hok : ∀ x ∈ l, o ≤ x.size ∧ hbOK x o hb)
+    {e : Nat} {er : Err} {hl' : HdrLst} {hb' : Option PHdrVals}
+    (hr : resumeRun afbHeadersP o (hsNew kh, hb) l = (e, er, hl', hb')) (her : er = .ok ∨ er = .empty)
+    (hgen : AfcGenericIn B o e hb) :
+    ∃ hs, HdrBlock B o hs e ∧ hl' = ((hsNew kh).acceptAll hs).setCur { state := .fin } ∧ hb' = hb ∧
+      er = (if ((hsNew kh).acceptAll hs).n > 0 then Err.ok else Err.empty) := by
+  have h1 := rc_headers_last_from o kh hb l hg B hB hok (by
+    rw [hr]; rcases her with h | h
+    · exact Or.inl h
+    · exact Or.inr (Or.inr (Or.inr h)))
+  rw [hr] at h1
+  exact afc_block_sound_in B o (hsNew kh) hb hfit (hsNew_ok kh).1 (hsNew_ok kh).2 h1.symm her hgen
+
+theorem afc_block_sound_schedule (o kh kc : Nat) (nil : Bool) (l : List Buf) (hg : Growing l) (B : Buf)
+    (hB : l.getLast? = some B) (hfit : B.size ≤ 65535) (h0 : ∀ b ∈ l.head?, o ≤ b.size)
+    {e : Nat} {er : Err} {hl' : HdrLst} {hb' : Option PHdrVals}
+    (hr : resumeRun afbHeadersP o (hsNew kh, rcHb nil kc) l = (e, er, hl', hb')) (her : er = .ok ∨ er = .empty)
+    (hgen : AfcGenericIn B o e (rcHb nil kc)) :
+    ∃ hs, HdrBlock B o hs e ∧ hl' = ((hsNew kh).acceptAll hs).setCur { state := .fin } ∧ hb' = rcHb nil kc ∧
+      er = (if ((hsNew kh).acceptAll hs).n > 0 then Err.ok else Err.empty) :=
+  afc_block_sound_schedule_from o kh _ l hg B hB hfit (rc_hbOK_all o kc nil hg h0) hr her hgen
+
+/-- **the chain accepts at `e` iff `[o, e)` of the whole buffer is a non-empty block of the grammar**, for every `e` such
+    that no line start of `[o, e)` carries a typed name -/
+theorem afc_block_ok_iff_schedule (o kh kc : Nat) (nil : Bool) (l : List Buf) (hg : Growing l) (B : Buf)
+    (hB : l.getLast? = some B) (hfit : B.size ≤ 65535) (h0 : ∀ b ∈ l.head?, o ≤ b.size)
+    (e : Nat) (hgen : AfcGenericIn B o e (rcHb nil kc)) (hl' : HdrLst) (hb' : Option PHdrVals) :
+    resumeRun afbHeadersP o (hsNew kh, rcHb nil kc) l = (e, .ok, hl', hb') ↔
+      ∃ hs, hs ≠ [] ∧ HdrBlock B o hs e ∧ hl' = ((hsNew kh).acceptAll hs).setCur { state := .fin } ∧
+        hb' = rcHb nil kc := by
+  have hok := rc_hbOK_all o kc nil hg h0
+  constructor
+  · intro hr
+    have h1 := rc_headers_last_from o kh _ l hg B hB hok (by rw [hr]; exact Or.inl rfl)
+    rw [hr] at h1
+    exact (afc_block_ok_iff_in B o kh _ hfit e hgen hl' hb').mp h1.symm
+  · intro H
+    exact rc_headers_of_oneshot_from o kh _ l hg B hB hok
+      ((afc_block_ok_iff_in B o kh _ hfit e hgen hl' hb').mpr H) (Or.inl rfl)
+
+/-- **what a block accepted by a chain reports**, hypothesis restricted to the accepted block -/
+theorem afc_block_report_schedule (o kh kc : Nat) (nil : Bool) (l : List Buf) (hg : Growing l) (B : Buf)
+    (hB : l.getLast? = some B) (hfit : B.size ≤ 65535) (h0 : ∀ b ∈ l.head?, o ≤ b.size)
+    {e : Nat} {hl' : HdrLst} {hb' : Option PHdrVals}
+    (hr : resumeRun afbHeadersP o (hsNew kh, rcHb nil kc) l = (e, .ok, hl', hb'))
+    (hgen : AfcGenericIn B o e (rcHb nil kc)) :
+    ∃ hs, hs ≠ [] ∧ HdrBlock B o hs e ∧ hb' = rcHb nil kc ∧ hl'.n = hs.length ∧ hl'.hdrs.size = kh ∧
+      (∀ j (hj : j < hs.length), j < kh → hl'.hdrs[j]! = hs[j]) ∧
+      (∀ t, t < 16 → hl'.pflags.testBit t = hs.any (fun h => h.type == t)) ∧
+      (∀ j, j < 13 → hl'.h[j]! = (match hs.find? (fun h => h.type == j + 1) with | some h => h | none => {})) := by
+  obtain ⟨hs, hne, H, rfl, rfl⟩ := (afc_block_ok_iff_schedule o kh kc nil l hg B hB hfit h0 e hgen hl' hb').mp hr
+  obtain ⟨r1, r2, r3, r4, r5⟩ := hs_new_report kh hs
+  exact ⟨hs, hne, H, rfl, r1, r2, r3, r4, r5⟩
+
+/-- test text: the demo block of HdrSound (`Q :z`, `W:`, empty line; `[0, 12)`) followed by a body whose first line
+    starts with the typed name `From` -/
+def afcExG : Buf := "Q :z\r\nW:\r\n\r\nFrom: x\r\n".toUTF8.data
+
+/-- test: the hypothesis of the existing theorems (`HsGeneric` of the WHOLE buffer, values object present) FAILS on this
+    text — the line start 12, after the block, carries a typed name -/
+theorem afcExG_not_generic : ¬ HsGeneric afcExG 0 (some {}) := by
+  rintro (h | h)
+  · cases h
+  · have := h 12 (Or.inr ⟨by omega, 10, by decide +kernel, by decide⟩)
+    have ht : getHdrType (afcExG.extract 12 (skipTokenDelim afcExG 12 58)) = HdrFrom := by decide +kernel
+    rw [ht] at this
+    revert this
+    unfold IsOther
+    decide
+
+/-- non-vacuity: the restricted hypothesis holds for the accepted block `[0, 12)`, any values object -/
+theorem afcExG_generic_in (hv : PHdrVals) : AfcGenericIn afcExG 0 12 (some hv) := by
+  refine Or.inr (fun o' _ hlt => ?_)
+  have all : ∀ o', o' < 12 → getHdrType (afcExG.extract o' (skipTokenDelim afcExG o' 58)) = 14 := by
+    decide +kernel
+  rw [all o' hlt]
+  unfold IsOther
+  decide
+
+/-- test / non-vacuity of `afc_block_sound_in`: one call with a values object accepts `[0, 12)`, hence it is a block of
+    the grammar — although `HsGeneric` fails -/
+example : ∃ hs, hs ≠ [] ∧ HdrBlock afcExG 0 hs 12 := by
+  have h1 : (parseHeaders afcExG 0 (hsNew 1) (some {})).1 = 12 := by decide +kernel
+  have h2 : (parseHeaders afcExG 0 (hsNew 1) (some {})).2.1 = .ok := by decide +kernel
+  rcases h : parseHeaders afcExG 0 (hsNew 1) (some {}) with ⟨e, er, hl', hb'⟩
+  rw [h] at h1 h2
+  simp only at h1 h2
+  subst h1
+  subst h2
+  obtain ⟨hs, hne, H, _⟩ := (afc_block_ok_iff_in afcExG 0 1 (some {}) (by decide +kernel) 12 (afcExG_generic_in {}) hl' hb').mp h
+  exact ⟨hs, hne, H⟩
+
+/-- cuts of that text: inside the first name / white space, inside the second line, inside the final empty line -/
+def afcExGCuts : List Buf := [afcExG.extract 0 2, afcExG.extract 0 7, afcExG.extract 0 11, afcExG]
+
+/-- non-vacuity of `afc_block_sound_schedule` / `afc_block_ok_iff_schedule` (values object present: `rcHb false 0`) -/
+example : ∃ hs, hs ≠ [] ∧ HdrBlock afcExG 0 hs 12 := by
+  have hg : Growing afcExGCuts :=
+    ⟨⟨afcExG.extract 2 7, by decide +kernel⟩, ⟨afcExG.extract 7 11, by decide +kernel⟩,
+     ⟨afcExG.extract 11 afcExG.size, by decide +kernel⟩, trivial⟩
+  have hrun : (resumeRun afbHeadersP 0 (hsNew 1, rcHb false 0) afcExGCuts).1 = 12 ∧
+      (resumeRun afbHeadersP 0 (hsNew 1, rcHb false 0) afcExGCuts).2.1 = .ok := by decide +kernel
+  have hr := mlf_triple_eta _ hrun.1 hrun.2
+  obtain ⟨hs, hne, H, _⟩ := (afc_block_ok_iff_schedule 0 1 0 false afcExGCuts hg afcExG rfl (by decide +kernel)
+    (fun _ _ => Nat.zero_le _) 12 (afcExG_generic_in _) _ _).mp hr
+  exact ⟨hs, hne, H⟩
+
+/-! ## (S6) C17: `MoreBytes` of ParseTokenParam, with the returned offset pinned -/
+
+/-- `r` is where unfinished white space STARTS: the start offset of the call, or a position whose preceding byte is not
+    SP / HT / CR / LF -/
+def AfcWsStart (b : Buf) (o r : Nat) : Prop :=
+  r = o ∨ ∃ c, 0 < r ∧ b[r - 1]? = some c ∧ isLWSch c = false
+
+/-- **`MoreBytes` at `r`, pinned**: as `PVMore`, and in addition
+    * `lws`: the end-of-input option is OFF, and `r` is the START of the unfinished white space (`AfcWsStart`: `r = o`, or
+      the byte before `r` is not SP / HT / CR / LF) — the text `[o, r)` is the beginning of a parameter, and from `r` on
+      there is only linear white space cut short by the end of the buffer;
+    * `quoted` / `quotedEsc` (any option word): inside an open quoted string, `r` is the end of the buffer / the
+      position of a back-slash that is the last byte (these two are the shapes of `PVMore`, which already pin `r`). -/
+inductive PVMoreAt (b : Buf) (flags o r : Nat) : Prop
+  | lws (st : TPState) (q : Nat) : hasFlag flags POptInputEndF = false → PVAt b flags o r st → st ≠ .quotedVal →
+      AfcWsStart b o r → Lws b r q → EndTail b q → PVMoreAt b flags o r
+  | quoted (q v0 : Nat) : PVEq b flags o q → Lws b (q + 1) v0 → b[v0]? = some 34 → PVQPre b (v0 + 1) r →
+      b[r]? = none → PVMoreAt b flags o r
+  | quotedEsc (q v0 : Nat) : PVEq b flags o q → Lws b (q + 1) v0 → b[v0]? = some 34 → PVQPre b (v0 + 1) r →
+      b[r]? = some 92 → b[r + 1]? = none → PVMoreAt b flags o r
+
+/-- the pinned description implies the one of ParamVerdicts -/
+theorem PVMoreAt.pvMore {b : Buf} {flags o r : Nat} (h : PVMoreAt b flags o r) : PVMore b flags o r := by
+  cases h with
+  | lws st q _ hP hne _ hl he => exact PVMore.lws st q hP hne hl he
+  | quoted q v0 he hl h34 hpre hn => exact PVMore.quoted q v0 he hl h34 hpre hn
+  | quotedEsc q v0 he hl h34 hpre h92 hn => exact PVMore.quotedEsc q v0 he hl h34 hpre h92 hn
+
+/-- loop positions: the start offset, a position after a byte that is not white space, or a position AT such a byte -/
+def AfcPin (b : Buf) (o i : Nat) : Prop :=
+  AfcWsStart b o i ∨ ∃ c, b[i]? = some c ∧ isLWSch c = false
+
+theorem AfcPin.start_of_lws {b : Buf} {o i : Nat} (h : AfcPin b o i) (hc : ∀ c, b[i]? = some c → isLWSch c = true) :
+    AfcWsStart b o i := by
+  rcases h with h | ⟨c, h1, h2⟩
+  · exact h
+  · rw [hc c h1] at h2; cases h2
+
+theorem afc_qbody_last {b : Buf} {i e : Nat} (h : QBody b i e) : b[e - 1]? = some 34 ∧ 0 < e := by
+  induction h with
+  | close i h0 => exact ⟨by rw [Nat.add_sub_cancel]; exact h0, by omega⟩
+  | plain i e c _ _ _ ih => exact ih
+  | esc i e c1 _ _ _ _ ih => exact ih
+
+/-- a byte that is not white space, outside quotes: the loop goes on at the next byte or stops with a verdict other
+    than `MoreBytes` -/
+theorem afc_step_nonlws (flags offs : Nat) (b : Buf) (i : Nat) (c : UInt8) (p : PTokParam)
+    (hl : isLWSch c = false) (hq : p.state ≠ .quotedVal) :
+    (∀ i' p', tpStep flags offs b i c p = .cont i' p' → i' = i + 1) ∧
+    (∀ o' e p', tpStep flags offs b i c p = .done o' e p' → e ≠ .moreBytes) := by
+  unfold tpStep tpSpTermEq tpSpTermSep
+  simp only [hl, Bool.false_eq_true, ↓reduceIte]
+  cases hst : p.state
+  case quotedVal => exact absurd hst hq
+  all_goals
+    simp only []
+    repeat' split
+    all_goals
+      refine ⟨fun i' p' h => ?_, fun o' e p' h => ?_⟩
+      · first
+          | (cases h; rfl)
+          | cases h
+      · first
+          | (cases h; decide)
+          | cases h
+
+theorem afc_tpMoreBytes (b : Buf) (flags : Nat) (p : PTokParam) (i : Nat)
+    (h : p.state ≠ .quotedVal ∧ p.state ≠ .err ∧ p.state ≠ .fin)
+    (hm : (tpMoreBytes b flags p i).2.1 = .moreBytes) :
+    hasFlag flags POptInputEndF = false ∧ tpMoreBytes b flags p i = (i, .moreBytes, p) := by
+  by_cases hf : hasFlag flags POptInputEndF = true
+  · exfalso
+    have he : (tpMoreBytes b flags p i).2.1 = .eoh := by
+      unfold tpMoreBytes
+      rw [if_pos hf]
+      cases hst : p.state with
+      | quotedVal => exact absurd hst h.1
+      | err => exact absurd hst h.2.1
+      | fin => exact absurd hst h.2.2
+      | name =>
+        exact pv_tpEOH_eoh _ _ _ (by
+          show p.state ≠ _ ∧ p.state ≠ _ ∧ p.state ≠ _
+          rw [hst]; decide)
+      | val =>
+        exact pv_tpEOH_eoh _ _ _ (by
+          show p.state ≠ _ ∧ p.state ≠ _ ∧ p.state ≠ _
+          rw [hst]; decide)
+      | _ => exact pv_tpEOH_eoh _ _ _ h
+    rw [he] at hm
+    cases hm
+  · refine ⟨by simpa using hf, ?_⟩
+    unfold tpMoreBytes
+    rw [if_neg hf]
+
+/-- what a result means, with the pinned description of `MoreBytes` -/
+def AfcPVQ (b : Buf) (flags o r : Nat) (e : Err) : Prop := e = .moreBytes → PVMoreAt b flags o r
+
+def AfcStepOK (b : Buf) (flags o : Nat) (s : Step PTokParam) : Prop :=
+  (∀ i' p', s = .cont i' p' → AfcPin b o i') ∧ (∀ o' e p', s = .done o' e p' → AfcPVQ b flags o o' e)
+
+theorem AfcStepOK.cont {b : Buf} {flags o n : Nat} {p : PTokParam} (h : AfcPin b o n) :
+    AfcStepOK b flags o (.cont n p) :=
+  ⟨(fun i' p' hh => by cases hh; exact h), (fun o' e p' hh => by cases hh)⟩
+
+theorem AfcStepOK.done {b : Buf} {flags o n : Nat} {e : Err} {p : PTokParam} (h : AfcPVQ b flags o n e) :
+    AfcStepOK b flags o (.done n e p) :=
+  ⟨(fun i' p' hh => by cases hh), (fun o' e' p' hh => by cases hh; exact h)⟩
+
+/-- one iteration: the position invariant is kept, and a `MoreBytes` exit meets the pinned description -/
+theorem afc_pv_step {b : Buf} {flags o offs i : Nat} {c : UInt8} {p : PTokParam} (hb : b[i]? = some c)
+    (hP : PVAt b flags o i p.state) (hpin : AfcPin b o i) : AfcStepOK b flags o (tpStep flags offs b i c p) := by
+  by_cases hq : p.state = .quotedVal
+  · -- inside quotes
+    have hP' := hP
+    rw [hq] at hP'
+    obtain ⟨q, v0, he, hlw, h34, hi⟩ := hP'.inv_quotedVal
+    have hsq := pv_skipQuoted b i
+    rcases hsk : skipQuoted b i with ⟨n, r⟩
+    rw [hsk] at hsq
+    simp only at hsq
+    unfold tpStep
+    simp only [hq]
+    rw [hsk]
+    rw [hi] at hsq
+    cases hsq with
+    | ok n' hqb =>
+      show AfcStepOK b flags o (Step.cont n _)
+      obtain ⟨h1, h2⟩ := afc_qbody_last hqb
+      exact AfcStepOK.cont (Or.inl (Or.inr ⟨34, h2, h1, by decide⟩))
+    | bad n' c' hpre hc hbad =>
+      show AfcStepOK b flags o (Step.done n .badChar p)
+      exact AfcStepOK.done (fun hh => by cases hh)
+    | badEsc m c' hpre h92 hc hcr =>
+      show AfcStepOK b flags o (Step.done (m + 1) .badChar p)
+      exact AfcStepOK.done (fun hh => by cases hh)
+    | more n' hpre hn =>
+      show AfcStepOK b flags o (stepOfRes (tpMoreBytes b flags p n))
+      rw [pv_tpMoreBytes_quoted b flags p n hq]
+      exact AfcStepOK.done (fun _ => PVMoreAt.quoted q v0 he hlw h34 hpre hn)
+    | moreEsc n' hpre h92 hn =>
+      show AfcStepOK b flags o (stepOfRes (tpMoreBytes b flags p n))
+      rw [pv_tpMoreBytes_quoted b flags p n hq]
+      exact AfcStepOK.done (fun _ => PVMoreAt.quotedEsc q v0 he hlw h34 hpre h92 hn)
+  · have hne : p.state ≠ .quotedVal ∧ p.state ≠ .err ∧ p.state ≠ .fin := ⟨hq, hP.live.1, hP.live.2.1⟩
+    by_cases hl : isLWSch c = true
+    · -- white space: the pattern `tpLWS`
+      obtain ⟨upd, hupd, hstep⟩ := pv_lws_of_state (flags := flags) (offs := offs) (b := b) (i := i) (p := p) hne
+      rw [hstep c hl]
+      have hupd_ne : (upd p).state ≠ .quotedVal ∧ (upd p).state ≠ .err ∧ (upd p).state ≠ .fin := by
+        obtain ⟨h1, h2, h3⟩ := hne
+        rw [hupd]
+        cases hst : p.state <;> first
+          | exact absurd hst h1
+          | exact absurd hst h2
+          | exact absurd hst h3
+          | decide
+      rcases hsk : skipLWS b i flags with ⟨n, crl, r⟩
+      rcases skipLWS_verdicts b i flags hsk with rfl | rfl | rfl | rfl
+      · rw [tpLWS_ok p upd hsk]
+        obtain ⟨_, c', hc', hl'⟩ := skipLWS_ok b i flags hsk
+        exact AfcStepOK.cont (Or.inr ⟨c', hc', hl'⟩)
+      · rw [tpLWS_eoh p upd hsk]
+        refine AfcStepOK.done (fun hh => ?_)
+        rw [pv_tpEOH_eoh _ _ _ hupd_ne] at hh
+        cases hh
+      · exact absurd hsk (pv_skipLWS_ne_noCR b i flags)
+      · rw [tpLWS_more p upd hsk]
+        refine AfcStepOK.done (fun hm => ?_)
+        obtain ⟨hf, heq⟩ := afc_tpMoreBytes b flags p i hne hm
+        rw [heq]
+        obtain ⟨q, hq', hend⟩ := pv_skipLWS_more b i flags hsk
+        exact PVMoreAt.lws p.state q hf hP hne.1
+          (hpin.start_of_lws (fun c' hc' => by rw [hb] at hc'; cases hc'; exact hl)) hq' hend
+    · -- any other byte
+      have hl' : isLWSch c = false := by simpa using hl
+      obtain ⟨a1, a2⟩ := afc_step_nonlws flags offs b i c p hl' hq
+      refine ⟨fun i' p' h => ?_, fun o' e p' h hm => absurd hm (a2 o' e p' h)⟩
+      rw [a1 i' p' h]
+      exact Or.inl (Or.inr ⟨c, by omega, by rw [Nat.add_sub_cancel]; exact hb, hl'⟩)
+
+/-- the whole loop -/
+theorem afc_pv_run (flags offs : Nat) (b : Buf) (o i : Nat) (p : PTokParam) (hP : PVAt b flags o i p.state)
+    (hpin : AfcPin b o i) :
+    AfcPVQ b flags o (runLoop (tpMachine flags offs) b i p).1 (runLoop (tpMachine flags offs) b i p).2.1 := by
+  apply runLoop_inv (tpMachine flags offs) b (fun i p => PVAt b flags o i p.state ∧ AfcPin b o i)
+    (fun r => AfcPVQ b flags o r.1 r.2.1)
+  · intro i c p i' p' hb hP hs
+    have hlt := tp_progress flags offs b i c p i' p' hb hs
+    refine ⟨fun _ => ?_, fun hn => absurd hlt hn⟩
+    have h := pv_step (offs := offs) hb hP.1
+    rw [show tpStep flags offs b i c p = .cont i' p' from hs] at h
+    exact ⟨h, (afc_pv_step (offs := offs) hb hP.1 hP.2).1 i' p' hs⟩
+  · intro i c p o' e p' hb hP hs
+    exact (afc_pv_step (offs := offs) hb hP.1 hP.2).2 o' e p' hs
+  · intro i p hb hP
+    show AfcPVQ b flags o (tpMoreBytes b flags p i).1 (tpMoreBytes b flags p i).2.1
+    by_cases hq : p.state = .quotedVal
+    · rw [pv_tpMoreBytes_quoted b flags p i hq]
+      have hP' := hP.1
+      rw [hq] at hP'
+      obtain ⟨q, v0, he, hlw, h34, hi⟩ := hP'.inv_quotedVal
+      intro _
+      refine PVMoreAt.quoted q v0 he hlw h34 ?_ hb
+      rw [hi]
+      exact PVQPre.nil _
+    · have hne : p.state ≠ .quotedVal ∧ p.state ≠ .err ∧ p.state ≠ .fin := ⟨hq, hP.1.live.1, hP.1.live.2.1⟩
+      intro hm
+      obtain ⟨hf, heq⟩ := afc_tpMoreBytes b flags p i hne hm
+      rw [heq]
+      exact PVMoreAt.lws p.state i hf hP.1 hq
+        (hP.2.start_of_lws (fun c' hc' => by rw [hb] at hc'; cases hc')) (Lws.nil i) (EndTail.none i hb)
+  · exact ⟨hP, hpin⟩
+
+/-- **[C17] `MoreBytes` at `r` ⇒ the pinned description** (new object, every buffer, offset and option word): the text
+    `[o, r)` is the beginning of a parameter; either the end-of-input option is off, `r` is the start of white space cut
+    short by the end of the buffer (`r = o` or the byte before `r` is not SP / HT / CR / LF), or `r` is the end of the
+    buffer / a trailing back-slash inside an open quoted string -/
+theorem afc_moreBytes_at {b : Buf} {o flags r : Nat} {p' : PTokParam}
+    (h : parseTokenParam b o {} flags = (r, .moreBytes, p')) : PVMoreAt b flags o r := by
+  have := afc_pv_run flags o b o o {} (PVAt.init o o (Pad.nil o) (Lws.nil o)) (Or.inl (Or.inl rfl))
+  rw [← parseTokenParam_run flags b o {} (by decide), h] at this
+  exact this rfl
+
 end Sipsp
